@@ -112,6 +112,11 @@ cdef class LegacyRecordBatch:
         return self._main_record.offset + 1
 
     def validate_crc(self):
+        # After decompression the buffer holds the inner message set, of any
+        # length: the checksum of the wrapper can't be computed from it
+        assert not self._decompressed, \
+            "Validate should be called before iteration"
+
         cdef:
             unsigned long crc = 0
             char * buf
